@@ -59,3 +59,9 @@ mk("m-c12-checktype-bytes-le", {"C12": ["C12.T|check_type|Ok(cmp)"]}, [(B + "dat
    "                ValueBody::Bytes(bytes) => Ok(bytes.len() as u64 == (s + 7) / 8),",
    "                ValueBody::Bytes(bytes) => Ok(bytes.len() as u64 >= (s + 7) / 8),")],
    "byte arrays longer than the type's size are accepted")
+mk("m-c02-t2k-closure-sender", {"C02": ["C02.W|", "{closure#0}"]}, [(B + "mpc/mpc_truncate.rs",
+   "            share1_sent.add_annotation(NodeAnnotation::Send(2, 1))?;", "            share1_sent.add_annotation(NodeAnnotation::Send(0, 1))?;")],
+   "TruncateMPC2K: val - PRF(k_02) is sent by party 0, which does not know r (drawn under k_2, held by party 2 only)")
+mk("m-c02-t2k-z0", {"C02": ["C02.W|"]}, [(B + "mpc/mpc_truncate.rs",
+   "        let z0 = x0.add(x1)?;\n        let z1 = x2;", "        let z0 = x0.add(x2.clone())?;\n        let z1 = x1;")],
+   "TruncateMPC2K: party 0's 2-out-of-2 share is built from x0 + x2, but party 0 does not hold x2 (still sums to x)")
